@@ -106,3 +106,29 @@ pub proof fn lemma_unchanged_pass_only_expired(t: Topic, now: int)
 {
     lemma_pass_refl(t, now);
 }
+
+// The representation invariant assumed by the pass is re-established by it — as long as the partition's LAST segment
+// is not deleted while older ones stay (then everything that remains is a prefix-complement of the list), or
+// everything was deleted and the fresh replacement is the only segment. (Not covered: a pass that removes the last
+// closed segment but keeps an older one, which needs last-message timestamps that decrease from one segment to the next.)
+// label: C14.wf.preserved
+pub proof fn lemma_block_ok_wf(p0: Partition, p1: Partition, lo: Seq<u64>)
+    requires part_wf(p0), block_ok(p0, p1, lo),
+        seq_keep(p0.segments@, not_listed(lo)).len() == 0 || !lo.contains(p0.segments@.last().start_offset),
+    ensures part_wf(p1),
+{
+    let a = p0.segments@;
+    let k = seq_keep(a, not_listed(lo));
+    if k.len() > 0 {
+        lemma_keep_sorted(a, not_listed(lo));
+        assert forall|j: int| 0 <= j < k.len() implies seg_wf(#[trigger] k[j]) by {
+            let i = lemma_keep_src(a, not_listed(lo), j);
+        }
+        assert(not_listed(lo)(a.last()));
+        assert(k == seq_keep(a.drop_last(), not_listed(lo)).push(a.last()));
+        assert(k.last() == a.last());
+    } else {
+        reveal(segs_sorted);
+        assert(p1.segments@.last() == p1.segments@[0]);
+    }
+}
